@@ -2443,7 +2443,11 @@ type gen struct {
 func (g *gen) newEpisode() {
 	shapes := [][2]int{{4, 3}, {3, 2}, {4, 3}, {5, 4}}
 	sh := shapes[g.r.Intn(len(shapes))]
-	g.cfg = cfgOp{ks: g.r.Intn(3), n: sh[0], t: sh[1], m: 2 + g.r.Intn(2), cur: []int{1, 5, 11, 23, 26}[g.r.Intn(5)], allowed: 2}
+	m := 2 + g.r.Intn(2)
+	if g.r.Chance(1, 3) {
+		m = 6 + g.r.Intn(3) // large sets: many validators with the same duty in one slot
+	}
+	g.cfg = cfgOp{ks: g.r.Intn(3), n: sh[0], t: sh[1], m: m, cur: []int{1, 5, 11, 23, 26}[g.r.Intn(5)], allowed: 2}
 	g.ep = newEpisode(g.run, g.cfg)
 	g.left--
 }
@@ -2649,6 +2653,24 @@ func (g *gen) systematicPeer(kind int) {
 				es := []entrySpec{good, bad}
 				if bi%2 == 1 {
 					es = []entrySpec{bad, good}
+				}
+				g.peer(peerOp{ty: ty, slot: slot, nsub: 1 + g.r.Intn(2), seed: g.seed(), malt: "none", entries: es})
+			}
+		}
+		// a large set (every validator of the cluster) in which exactly one entry, at any position of
+		// the map iteration, is invalid: the whole set must be refused
+		if g.cfg.m >= 5 && kind != kRaw {
+			for rep := 0; rep < 3; rep++ {
+				badPos := g.r.Intn(g.cfg.m)
+				var es []entrySpec
+				for v := 0; v < g.cfg.m; v++ {
+					e := base
+					e.val, e.share = v, share
+					if v == badPos {
+						e.alt = []alt{g.mkAlt(signAlts[g.r.Intn(len(signAlts))], v, share, objEpoch, kindDom[kind]),
+							{kind: "idx", a: uint64(1 + (share % g.cfg.n))}, {kind: "key", a: uint64(g.r.Intn(4))}}[g.r.Intn(3)]
+					}
+					es = append(es, e)
 				}
 				g.peer(peerOp{ty: ty, slot: slot, nsub: 1 + g.r.Intn(2), seed: g.seed(), malt: "none", entries: es})
 			}
